@@ -72,6 +72,39 @@ func goFuncsOf(gdir string) map[string][]goFunc {
 			out[key] = append(out[key], goFunc{fd, recv})
 		}
 	}
+	// A function whose whole body forwards to internal/stringslite (where Go moved the code the Wa port was taken
+	// from) is compared through the function it forwards to.
+	if lite := filepath.Join(filepath.Dir(gdir), "internal", "stringslite"); filepath.Base(gdir) == "strings" {
+		var liteFuncs map[string][]goFunc
+		for key, gs := range out {
+			for i, g := range gs {
+				if g.Recv != "" || len(g.Decl.Body.List) != 1 {
+					continue
+				}
+				ret, ok := g.Decl.Body.List[0].(*ast.ReturnStmt)
+				if !ok || len(ret.Results) != 1 {
+					continue
+				}
+				call, ok := ret.Results[0].(*ast.CallExpr)
+				if !ok {
+					continue
+				}
+				se, ok := call.Fun.(*ast.SelectorExpr)
+				if !ok {
+				continue
+			}
+			if id, isID := se.X.(*ast.Ident); !isID || id.Name != "stringslite" {
+					continue
+				}
+				if liteFuncs == nil {
+					liteFuncs = goFuncsOf(lite)
+				}
+				if t := liteFuncs[se.Sel.Name]; len(t) == 1 && t[0].Decl.Type.Params.NumFields() == g.Decl.Type.Params.NumFields() {
+					out[key][i] = goFunc{t[0].Decl, ""}
+				}
+			}
+		}
+	}
 	return out
 }
 
